@@ -174,6 +174,8 @@ fn exec_laws(sc: &Scenario) -> Report {
                         pos = 0;
                         finished = false;
                     }
+                    // nothing done before the reset counts as progress made after it
+                    reference.prev_steps = pos;
                 }
                 "set_length" => {
                     cur_len = Some(op.n0());
@@ -418,16 +420,42 @@ fn exec_twins(sc: &Scenario) -> Report {
             r.violate("C09.no_panic", format!("a call of the pre-history panicked: {p}"));
             return r;
         }
-        // synchronise: same position, recorded by both, at the same instant
+        // synchronise: same position at the same instant -
+        //   kind 0: recorded by both estimators;
+        //   kind 1 (reset() only: the position goes back to 0 anyway): not at all, the bars stay
+        //           where their pre-histories left them;
+        //   kind 2 (reset_eta only): bar a gets there through a position update that its
+        //           estimator does not see (the position rate limiter skips the tick), b's is
+        //           recorded
+        let forget = sc.c("forget");
+        let sync_kind = match (sc.c("sync_kind"), forget % 3) {
+            (1, 1) => 1,
+            (2, 0) => 2,
+            _ => 0,
+        };
         sched::advance_quiet(sc.c("sync_gap").max(1));
         let p_sync = sc.c("sync_pos");
-        for pb in [&a, &b] {
-            pb.set_position(p_sync);
-            pb.tick();
+        match sync_kind {
+            1 => {}
+            2 => {
+                // use up a's position bucket (burst 10) at this instant, then move it
+                for _ in 0..12 {
+                    a.inc(0);
+                }
+                a.set_position(p_sync);
+                b.set_position(p_sync);
+                b.tick();
+            }
+            _ => {
+                for pb in [&a, &b] {
+                    pb.set_position(p_sync);
+                    pb.tick();
+                }
+            }
         }
+        r.probe(["sync_recorded", "sync_none", "sync_unrecorded"][sync_kind as usize]);
         sched::advance_quiet(sc.c("after_sync_gap"));
         // forget
-        let forget = sc.c("forget");
         for pb in [&a, &b] {
             match forget % 3 {
                 0 => pb.reset_eta(),
@@ -535,7 +563,7 @@ impl Check for C09 {
         "C09"
     }
     fn rule_text(&self) -> String {
-        "laws: 1..60 updates (gap, position) with gaps log-uniform 1 ms..3 days plus exact cadences, positions up to 1e15, reset_eta/reset_elapsed/reset/backwards seeks/set_length/finish/abandon at random places, bars built with_elapsed, queries at update instants and during stalls; checked: per_sec finite and >= 0 and eta/duration well formed at every instant strictly after creation or the last reset, per_sec <= largest sample rate since the last reset (an abandoned bar: <= the largest sample rate since creation unless the bar was told to forget), successive stall queries non-increasing, eta == remaining/per_sec (0 when finished / unknown length / no progress), duration == elapsed + eta, all at one frozen instant. steady: every update lies exactly on p = p0 + r (t - t0) (k steps per ms with whole-ms gaps, or one step per m ms with gaps multiple of m) with irregular cadence => |per_sec - r| <= 1e-7 r at every update. twins: two bars with different pre-histories are synchronised (same position recorded at the same instant), forget (reset_eta / reset / backwards seek) and get the same post-history => bit-identical per_sec and eta. The oracle states laws only: a different estimator that satisfies them passes. Non-trivial: laws = >= 2 recorded samples; steady = >= 2 updates; twins = >= 2 post operations. Distinct = distinct scenario hash.".into()
+        "laws: 1..60 updates (gap, position) with gaps log-uniform 1 ms..3 days plus exact cadences, positions up to 1e15, reset_eta/reset_elapsed/reset/backwards seeks/set_length/finish/abandon at random places, bars built with_elapsed, queries at update instants and during stalls; checked: per_sec finite and >= 0 and eta/duration well formed at every instant strictly after creation or the last reset, per_sec <= largest sample rate since the last reset (an abandoned bar: <= the largest sample rate since creation unless the bar was told to forget), successive stall queries non-increasing, eta == remaining/per_sec (0 when finished / unknown length / no progress), duration == elapsed + eta, all at one frozen instant. steady: every update lies exactly on p = p0 + r (t - t0) (k steps per ms with whole-ms gaps, or one step per m ms with gaps multiple of m) with irregular cadence => |per_sec - r| <= 1e-7 r at every update. twins: two bars with different pre-histories are synchronised (same position at the same instant: recorded by both estimators; or - before reset() - not at all; or - before reset_eta - reached by one of them through a position update its estimator never saw because the position rate limiter skipped the tick), forget (reset_eta / reset / backwards seek) and get the same post-history => bit-identical per_sec and eta. The oracle states laws only: a different estimator that satisfies them passes. Non-trivial: laws = >= 2 recorded samples; steady = >= 2 updates; twins = >= 2 post operations. Distinct = distinct scenario hash.".into()
     }
     fn assumptions(&self) -> Vec<String> {
         vec![
@@ -587,6 +615,14 @@ impl Check for C09 {
                     ops.push(Op::new("finish").n(rng.below(5)));
                     ops.push(Op::new("gap").n(1_000_000_000));
                     ops.push(Op::new("query"));
+                    if rng.chance(1, 2) {
+                        // the finished bar is put to work again: nothing of the first run counts
+                        ops.push(Op::new("reset"));
+                        ops.push(Op::new("gap").n(*rng.pick(&[1, 1_000_000, 500_000_000])));
+                        ops.push(Op::new("query"));
+                        let n2 = rng.range(1, 8);
+                        ops.extend(gen_history(rng, n2, true));
+                    }
                 }
                 sc.threads = vec![ops];
                 sc
@@ -633,6 +669,7 @@ impl Check for C09 {
                 sc.set("sync_gap", log_uniform(rng, 1e6, 1e11));
                 sc.set("after_sync_gap", *rng.pick(&[0, 1, 1_000_000, 5_000_000_000]));
                 sc.set("forget", rng.below(3));
+                sc.set("sync_kind", rng.below(3));
                 let mut post = vec![];
                 let mut pos = if sc.c("forget") == 0 { sc.c("sync_pos") } else { 0 };
                 for _ in 0..rng.range(2, 12) {
